@@ -67,7 +67,7 @@ ASSUMPTIONS = [
     "scalar (float16/32/64, complex128) where the object is array-backed or the constructor argument holds numbers only; next to "
     "symbols (Matrix-backed object, bind map, mixed list) numpy float scalars are refused by sympy 1.9 under numpy 2 with ValueError "
     "(object unchanged) - out of domain; float32 / float16 / complex64 values are used only where they hold the number exactly",
-    "EXCLUDED (defect of the unchanged library, reported): a Python / numpy bool next to symbols - wf = Wavefunction([x, .5, .5, .5]); "
+    "KNOWN FINDING bool-entry-next-to-symbols (probed directly on every run by harness/finding_probes.py, not generated): a Python / numpy bool next to symbols - wf = Wavefunction([x, .5, .5, .5]); "
     "wf[1] = True is accepted and stored as sympy's BooleanTrue, which _check_normalization does not count (the numeric entries then "
     "exceed 1); on an array-backed object the same assignment is 1.0 and is rejected.  bind({x: True}) raises TypeError",
     "dicke_state: the qubit count may be a numpy integer / Fraction / sympy Integer / bool (zero_state casts it), the weight an int or "
